@@ -196,6 +196,7 @@ func run(t *rapid.T, r *rec.Recorder) {
 	acts["ack"] = ack
 	acts["ack2"] = ack
 	acts["ackAgain"] = m.Wrap(m.ActAckAgain)
+	acts["forgedSendEvent"] = m.Wrap(m.ActForgedSendEvent)
 	acts["limit"] = m.Wrap(m.ActLimit)
 	acts[""] = func(t *rapid.T) { m.T = t; c.check() }
 	t.Repeat(acts)
